@@ -217,6 +217,31 @@ def first_failing_prefix(case):
     return len(prog), None
 
 
+REDUCTIONS = {"sum", "count", "max", "min", "mean", "nunique", "std", "var", "size", "any", "all", "prod", "median", "describe", "value_counts", "unique"}
+
+
+def consumer_class(step):
+    t = step[0]
+    if t in ("col", "cols", "iloc"):
+        return "projection"
+    if t in ("item", "loc", "locs"):
+        return "filter"
+    if t in ("bin", "un"):
+        return "binary"
+    if t == "lib":
+        return step[1]
+    if t == "call":
+        m = step[2]
+        if m in P.ARITH or m in P.COMPARE:
+            return "binary"
+        if m in REDUCTIONS:
+            return "groupby-reduction" if "groupby" in P.chain_sig(step) else "reduction"
+        return m
+    if t in ("acc", "accitem"):
+        return "accessor"
+    return P.chain_sig(step)
+
+
 def run_case(case, ctx, pxs=None):
     prog = case[5]
     status, problems, pxs, nontrivial = evaluate(case, pxs)
@@ -231,7 +256,8 @@ def run_case(case, ctx, pxs=None):
         k, r = first_failing_prefix(case)
         if r is not None:
             problems = r[1]
-    chain = ">".join(P.chain_sig(s) for s in prog[max(0, k - 2) : k])
+    # name = producer (exact operation) > consumer (coarse class): one optimizer rule is usually identified by the producer it rewrites
+    chain = (P.chain_sig(prog[k - 2]) + ">" if k >= 2 else "") + consumer_class(prog[k - 1])
     for stage, failure, detail in problems:
         ctx.violation(f"{stage}:{failure}:{chain}", case, f"steps 1..{k} of {len(prog)}: {detail}")
 
